@@ -2,7 +2,7 @@
    // comments).  Model: Model/Layout.v (the repaired tokenizer, Token.end / is_connected,
    CustomOrder).  Only statements, closed by `exact`, each followed by Print Assumptions. *)
 From Coq Require Import ZArith String List Bool Ascii.
-From JMCV Require Import Model.Layout Model.LayoutArg Proofs.LayoutBasic Proofs.LayoutAdj Proofs.LayoutAdj2 Proofs.LayoutSim Proofs.LayoutSim2 Proofs.LayoutDeep Proofs.LayoutGlue Proofs.LayoutArg.
+From JMCV Require Import Model.Layout Model.LayoutArg Proofs.LayoutBasic Proofs.LayoutAdj Proofs.LayoutAdj2 Proofs.LayoutSim Proofs.LayoutSim2 Proofs.LayoutDeep Proofs.LayoutGlue Proofs.LayoutArg Proofs.LayoutGap.
 Import ListNotations.
 Open Scope Z_scope.
 
@@ -249,3 +249,45 @@ Example C15_argument_text_nonvacuous :
   | Err _ => false
   end = true.
 Proof. vm_compute. reflexivity. Qed.
+
+(* ---- round 5: the end of a string literal is its RECORDED source end, for every character content.
+   `lit_tok l c n s g` = a STRING token at (l, c) with ANY text s whose literal occupies n source columns on its line
+   and whose `_macro_end` is recorded (Tokenizer.append_token: the position of the closing quote + 1).
+   C15_string_end_is_recorded_end: is_connected reads a recorded end and nothing else of the previous token
+   (type, text, len(repr(text)) are irrelevant).
+   C15_gap_after_string_literal: a token k columns behind the closing quote is glued iff k = 0, and two layouts that
+   differ in the width of a non-empty gap (or put the next token on another line) get the same decision - for raw
+   TAB / NBSP / soft hyphen / control characters in the literal like for any other text.
+   C15_unrecorded_string_end_refuted: WITHOUT the record the decision is `k = len(repr(s)) - n`; for every literal
+   written without backslash that holds a raw TAB that is > 0 (repr is strictly longer than the source text), so a token
+   that many blanks away is judged glued and a glued one apart; witness "a<TAB>key" followed by `{`. *)
+Theorem C15_string_end_is_recorded_end :
+  forall cur prev e, t_mend prev = Some e -> is_connected cur prev = pos_eqb e (t_line cur, t_col cur).
+Proof. exact recorded_end_decides. Qed.
+Print Assumptions C15_string_end_is_recorded_end.
+
+Theorem C15_gap_after_string_literal :
+  forall l c n s g cur k,
+    after_gap cur l c n k ->
+    is_connected cur (lit_tok l c n s g) = (k =? 0) /\
+    (forall l' c' g' cur' k', 0 < k -> 0 < k' -> after_gap cur' l' c' n k' ->
+       is_connected cur (lit_tok l c n s g) = is_connected cur' (lit_tok l' c' n s g')) /\
+    (forall cur', t_line cur' <> l -> is_connected cur' (lit_tok l c n s g) = false).
+Proof.
+  intros l c n s g cur k H. split; [exact (gap_decides l c n s g cur k H) | split].
+  - intros l' c' g' cur' k' Hk Hk' H'. exact (gap_width_irrelevant l c n s g cur k l' c' g' cur' k' Hk Hk' H H').
+  - intros cur' Hl. exact (other_line_apart l c n s g cur' Hl).
+Qed.
+Print Assumptions C15_gap_after_string_literal.
+
+Theorem C15_unrecorded_string_end_refuted :
+  (forall l c n s g cur k, after_gap cur l c n k ->
+     is_connected cur (lit_tok_norec l c s g) = (k =? repr_len s - n)) /\
+  (forall a b, 0 < repr_len (a ++ TAB :: b) - (len (a ++ TAB :: b) + 2)) /\
+  (is_connected (mkTok PAREN_CURLY 1 20 [ch "{"; ch "}"] 0 None false) (lit_tok_norec 1 12 tab_lit false) = true /\
+   is_connected (mkTok PAREN_CURLY 1 19 [ch "{"; ch "}"] 0 None true) (lit_tok_norec 1 12 tab_lit false) = false).
+Proof.
+  split; [exact unrecorded_end_decides | split; [| exact unrecorded_end_wrong]].
+  intros a b. pose proof (repr_len_tab a b). apply Z.lt_0_sub. assumption.
+Qed.
+Print Assumptions C15_unrecorded_string_end_refuted.
